@@ -992,7 +992,7 @@ def replay(path):
         o = I.run_operations([("check_that", e, None, True, rp["hint"])])[0]
         print(json.dumps(o, default=str))
         return 1 if not o["checks"] or o["checks"][0][0] != rp["expected"] else 0
-    if r.get("kind") == "no-failing-input-found":
+    if r.get("kind") == "no-failing-input-found" or rp.get("kind") in ("in-operation", "value-clause"):
         # a broken proof / translator / correspondence without a failing input: re-run the whole check on the current tree
         import subprocess
         rc = subprocess.call([os.path.join(lib.ROOT, "check"), "C17", "--tier", "quick"])
